@@ -158,7 +158,7 @@ ATOMS = [
     ("task_proxy::is_shared(tp.task_and_tag)", "shared"), ("tp.outbox->recipient_is_idle()", "destIdle"),
     ("a.mailbox(slot_index).recipient_is_idle()", "victimIdle"),
     ("tls->my_task_dispatcher->m_execute_data_ext.isolation", "edIso"), ("tls.my_task_dispatcher->m_execute_data_ext.isolation", "edIso"),
-    ("dl_guard.old_execute_data_ext.isolation", "edIso"), ("ed.isolation", "edIso"),
+    ("dl_guard.old_execute_data_ext.isolation", "edIso"), ("dispatcher->m_execute_data_ext.isolation", "edIso"), ("ed.isolation", "edIso"),
     ("reinterpret_cast<isolation_type>(&d)", "fresh"), ("current_isolation", "cur"), ("previous_isolation", "prev"),
     ("no_isolation", "0"), ("isolation", "iso"), ("fifo_allowed", "fifoAllowed"), ("omit", "omitted"), ("result", "nonNull"),
     ("work_type == work_enqueued", "enq"), ("my_num_reserved_slots", "reserved"), ("my_num_slots", "numSlots"),
@@ -167,11 +167,12 @@ ATOMS = [
     ("has_enqueued_tasks()", "hasEnq"), ("has_tasks()", "hasTasks"),
     ("ref_param == ref_external", "external"), ("my_mandatory_concurrency.test()", "mandSet"),
     ("last == my_tail.load(std::memory_order_relaxed)", "lastIsTail"), ("last == nullptr", "lastIsNull"),
+    ("num_workers_active()", "active"), ("my_num_workers_allotted.load(std::memory_order_relaxed)", "allot"),
 ]
 TYPES = {"tag": "nat", "iso": "nat", "edIso": "nat", "fresh": "nat", "cur": "nat", "prev": "nat", "isProxy": "bool", "shared": "bool",
          "destIdle": "bool", "victimIdle": "bool", "fifoAllowed": "bool", "omitted": "bool", "nonNull": "bool", "enq": "bool",
          "reserved": "nat", "numSlots": "nat", "m": "bool", "w": "bool", "workerless": "bool", "maxW": "nat", "hasEnq": "bool",
-         "hasTasks": "bool", "external": "bool", "mandSet": "bool", "lastIsTail": "bool", "lastIsNull": "bool"}
+         "hasTasks": "bool", "external": "bool", "mandSet": "bool", "lastIsTail": "bool", "lastIsNull": "bool", "active": "nat", "allot": "nat"}
 
 
 def translate(src, allowed, want):
@@ -328,10 +329,8 @@ def x_tags():
     out["edAfterCrit"] = one(r"ed\.context=task_accessor::context\(\*crit_t\);ed\.isolation=([^;]+);", cr, "get_critical_task: ed.isolation = ...")
     iw = body_of("src/tbb/arena.cpp", r"void isolate_within_arena\s*\([^)]*\)\s*\{")
     out["isolateTag"] = one(r"isolation_type current_isolation=([^;]+);", iw, "isolate_within_arena: current_isolation = ...")
-    out["isolateSet"] = one(r"previous_isolation=dispatcher->set_isolation\(([^()]+?)\);", iw, "isolate_within_arena: set_isolation(current)")
-    out["isolateRestore"] = one(r"\.on_completion\(\[&\]\{(?:__TBB_ASSERT\([^;]*\);)?dispatcher->set_isolation\(([^()]+?)\);\}\)", iw, "isolate_within_arena: restore on completion")
-    if not re.search(r"isolation_type previous_isolation=dispatcher->m_execute_data_ext\.isolation;", iw):
-        raise GenError("isolate_within_arena: previous_isolation is not initialised from the dispatcher")
+    out["isolateSet"] = one(r"(?:previous_isolation=)?dispatcher->set_isolation\(([^()]+?)\);d\(\);", iw, "isolate_within_arena: set_isolation(current); d();")
+    # (what is saved, when, and what the completion guard restores: checks/c16c.py x_isolate)
     return out
 
 
@@ -419,7 +418,7 @@ DEFS = [
     ("tagEnqueue", "(edIso : Nat)", "nat", ["edIso"], "edIso"),
     ("edAfterOwn", "(tag : Nat)", "nat", ["tag"], "0"), ("edAfterIdle", "(tag : Nat)", "nat", ["tag"], "0"), ("edAfterCrit", "(tag : Nat)", "nat", ["tag"], "0"),
     ("isolateTag", "(iso fresh : Nat)", "nat", ["iso", "fresh"], "0"),
-    ("isolateSet", "(cur : Nat)", "nat", ["cur"], "0"), ("isolateRestore", "(prev : Nat)", "nat", ["prev"], "0"),
+    ("isolateSet", "(cur : Nat)", "nat", ["cur"], "0"),
     ("advMandCond", "(enq : Bool) (numSlots reserved : Nat)", "bool", ["enq", "numSlots", "reserved"], "false"),
     ("advReports", "(m w : Bool)", "bool", ["m", "w"], "false"),
     ("advMandDelta", "(m : Bool)", "int", ["m"], "0"),
@@ -843,6 +842,15 @@ def fixed_scenarios():
     S.append(("iso-nested", 3, [(3, 1)], [
         "exec 0 { iso { tg { run { iso { pfor 3 0 { work } } } run { work } run { iso { tg { run { work } run { iso { pfor 2 0 { work } } } } } } } } }",
         "exec 0 { tg { run { work } run { work } pfor 4 1 { work } } }"]))
+    S.append(("iso-nested-then-wait", 3, [(3, 1)], [     # a wait in the ENCLOSING scope after a nested scope returned (normally / by exception)
+        "exec 0 { tg { run { work } run { work } iso { iso { pfor 3 0 { work } } tg { run { work } run { work } } isot { tg { run { work } } } pfor 3 1 { work } } } }",
+        "exec 0 { tg { run { work } iso { isot { isot { work } tg { run { work } } } tg { run { work } run { work } } } run { work } } }"]))
+    S.append(("iso-throw", 2, [(2, 1)], [
+        "exec 0 { tg { run { work } run { work } isot { tg { run { work } run { work } } } iso { isot { work } isot { pfor 2 0 { work } } tg { run { work } } } } }",
+        "exec 0 { tg { enq 0 { work } run { isot { iso { tg { run { work } } } tg { run { work } } } } } }"]))
+    S.append(("iso-bypass", 2, [(2, 1)], [             # a bypassed task inside a region: its spawns and waits stay in the region (foreign tasks below in the own pool)
+        "exec 0 { tg { run { work } run { work } iso { tg { byp { tg { run { work } run { work } } } byp { work } } } isot { tg { byp { tg { run { work } } } } } } }",
+        "exec 0 { tg { run { work } iso { tg { byp { pfor 3 0 { work } } } } } }"]))
     S.append(("iso-target-mailed", 3, [(3, 1)], [     # the isolated waiter is idle while a worker runs its task; then another slot mails proxies around
         "exec 0 { spin 1 pfor 6 1 { work } pfor 6 1 { work } set 2 }",
         "exec 0 { iso { tg { run { set 1 spin 2 } spin 1 } } }"]))
@@ -902,13 +910,15 @@ def rand_block(rng, depth, in_tg, narenas, cur_arena, allow_iso=True):
         elif r < 0.40:
             out.append("pfor %d %d { work }" % (rng.choice([2, 3, 4, 6]), rng.choice([0, 0, 1, 1, 2, 3])))
         elif r < 0.58 and allow_iso:
-            out.append("iso { %s }" % rand_block(rng, depth - 1, False, narenas, cur_arena, allow_iso))
+            out.append("%s { %s }" % ("isot" if rng.random() < 0.3 else "iso", rand_block(rng, depth - 1, False, narenas, cur_arena, allow_iso)))
         elif r < 0.72:
             out.append("tg { %s }" % rand_block(rng, depth - 1, True, narenas, cur_arena, allow_iso))
         elif r < 0.82 and in_tg:
             out.append("enq %d { work }" % cur_arena)
-        elif r < 0.90 and in_tg:
+        elif r < 0.87 and in_tg:
             out.append("crit { work }")
+        elif r < 0.91 and in_tg:
+            out.append("byp { %s }" % (W if depth <= 0 else rand_block(rng, depth - 1, True, narenas, cur_arena, allow_iso)))
         else:
             out.append(W)
     return " ".join(out)
@@ -1040,7 +1050,7 @@ def run_rt(ck, rt, sh):
             if classes[cls] is None or r["stat"].get("steps", 1 << 60) < classes[cls][0]["stat"].get("steps", 1 << 60):
                 classes[cls] = (r, p)
     ck.extra["rt_totals"] = tot
-    ck.sample({"rt_program": prog_text(*fixed[8][1:]).split("\n")[:-1], "family": fixed[8][0]})
+    ck.sample({"rt_program": prog_text(*fixed[10][1:]).split("\n")[:-1], "family": fixed[10][0]})
     names = {"ISO": "monitor:isolation — a thread waiting inside an isolate region (or inside a task of it) starts only bodies created in that region (whole runtime, E-SHIM)",
              "BUDGET": "monitor:worker budget — at most L-1 workers inside user bodies; under L=1 one worker and only in an arena with an open mandatory window (whole runtime, E-SHIM)",
              "BOUND": "monitor:concurrency bound — threads inside one arena <= max_concurrency (+ the mandatory worker of a one-thread arena), distinct current_thread_index "
@@ -1088,7 +1098,8 @@ def run_rt(ck, rt, sh):
     oprog = prog_text(1, [(2, 1)], ["exec 0 { tg { iso { crit { work } } iso { tg { run { work } } } } }"])
     orr = rt_run(rt, sh, oprog, "rand", 1, 96)
     ck.extra["observation_isolation_tag_reuse"] = {"program": oprog.replace("\n", " ; "), "monitor": orr["mon"][:2],
-                                                   "note": "not an obligation: both regions carry the same tag word (address of a stack object)"}
+                                                   "note": "whole-runtime view of the known finding isolation-tag-reuse-foreign-task-in-later-region (its obligation and replay are "
+                                                           "produced on the nest puppet, checks/c16c.py): both regions carry the same tag word (address of a stack object)"}
     return results
 
 
@@ -1117,6 +1128,12 @@ def replay_part2(ck, r, sh, drv):
         m = iso_monitor(ops, impl) if len(impl) == len(ops) else "harness died rc=%d" % rc
         print("monitor: %s" % (m or "ok"))
         return m is not None
+    if mode == "nest":
+        import c16c
+        return c16c.replay_nest(r, rt, sh)
+    if mode == "life":
+        import c16c
+        return c16c.replay_life(r, rt, sh)
     if mode == "scen":
         print(r["program"])
         # runs are reproducible from the seed (one process per run, init_determinism); the explicit schedule is kept as well when it is short
